@@ -1,14 +1,12 @@
 /* Contract of  static int MGRS::LatitudeBand(real lat)   (include/GeographicLib/MGRS.hpp, inline)
  * Oracle: MGRS latitude bands C..X: 8 degrees each from 80S, southern edge included, band X extended to 84N
  * (and beyond, clamped); numbered -10..9.  -- C05, C04 */
-/*@ clause pre.range src=call-site */
-__CPROVER_requires(!isnan(lat))
 /*@ clause frame src=property props=C14 */
 __CPROVER_assigns()
 /*@ clause post.range src=standard props=C05 */
 __CPROVER_ensures(-10 <= __CPROVER_return_value && __CPROVER_return_value <= 9)
 /*@ clause post.band src=standard props=C05,C04 */
-__CPROVER_ensures((__CPROVER_return_value == -10 || 8.0 * __CPROVER_return_value <= lat) &&
+__CPROVER_ensures(isnan(lat) || (__CPROVER_return_value == -10 || 8.0 * __CPROVER_return_value <= lat) &&
                   (__CPROVER_return_value == 9 || lat < 8.0 * (__CPROVER_return_value + 1)))
 /*@ clause post.clamp src=standard props=C05 */
-__CPROVER_ensures((lat >= -80.0 || __CPROVER_return_value == -10) && (lat < 72.0 || __CPROVER_return_value == 9))
+__CPROVER_ensures(isnan(lat) || ((lat >= -80.0 || __CPROVER_return_value == -10) && (lat < 72.0 || __CPROVER_return_value == 9)))
